@@ -114,7 +114,10 @@ impl RevocationBitmap {
     // This fix checks if the encoded string it receives as input has undergone such process
     // and undo the inner Base64 encoding before processing the input further.
     let mut data = Cow::Borrowed(data.as_ref());
-    if !data.starts_with("eJy") {
+    // A zlib stream starts with the header bytes 0x78 0x9C (`eJ` in base64), whereas the third character depends on
+    // the first deflate block and is not fixed. The legacy double encoding of such a stream starts with `ZUp`,
+    // the Base64 encoding of `eJ`, which no zlib stream can start with.
+    if data.starts_with("ZUp") {
       // Base64 encoded zlib default compression header
       let decoded = BaseEncoding::decode(&data, Base::Base64)
         .map_err(|e| RevocationError::Base64DecodingError(data.into_owned(), e))?;
